@@ -123,7 +123,7 @@ theorem ds_n_exact_full_false : ¬ ds_n_exact_full := by
 all discrepancies are 0, `delta < 0` is false for every point, nothing is kept. -/
 def lossHistRat : Hist Rat := .merge (.upd (.new 2 1) [5]) (.merge (.upd (.new 2 1) [0]) (.upd (.new 2 1) [100]))
 example : (run (concretePicker indicatorK) lossHistRat { bits := [false] }).1.n = 1 ∧ lossHistRat.inputs.length = 3 := by
-  decide
+  decide +kernel
 
 /-- PROVED PART: n is exact for every history in which no merge operand is an emptied sketch
 (`num_retained_ = 0` although `n_ > 0`).  What is missing for the full statement is exactly the skipped case. -/
